@@ -260,7 +260,7 @@ func EncodeSW(b mp4.Box) (out []byte, outcome string, pmsg string) {
 			outcome = "err"
 			return
 		}
-		sw := bits.NewFixedSliceWriter(int(sz))
+		sw := DirtyWriter(int(sz))
 		err := b.EncodeSW(sw)
 		if err != nil {
 			outcome = "err"
@@ -278,6 +278,17 @@ func EncodeSW(b mp4.Box) (out []byte, outcome string, pmsg string) {
 	return
 }
 
+// DirtyWriter is a FixedSliceWriter over a re-used output buffer of n bytes that is NOT zero-initialised (every byte
+// 0xa5): what EncodeSW writes must not depend on what the buffer held (an encoder that skips over reserved fields
+// instead of writing them differs from Encode here).
+func DirtyWriter(n int) *bits.FixedSliceWriter {
+	dirty := make([]byte, n)
+	for i := range dirty {
+		dirty[i] = 0xa5
+	}
+	return bits.NewFixedSliceWriterFromSlice(dirty)
+}
+
 // EncodeSWRoomy runs b.EncodeSW on a FixedSliceWriter of capacity b.Size()+extra; n = bytes written.
 func EncodeSWRoomy(b mp4.Box, extra int) (out []byte, outcome string, n int) {
 	pmsg := hx.Try(func() {
@@ -286,7 +297,13 @@ func EncodeSWRoomy(b mp4.Box, extra int) (out []byte, outcome string, n int) {
 			outcome = "err"
 			return
 		}
-		sw := bits.NewFixedSliceWriter(int(sz) + extra)
+		// a re-used output buffer: not zero-initialised (an encoder that skips over reserved fields instead of writing
+		// them shows here)
+		dirty := make([]byte, int(sz)+extra)
+		for i := range dirty {
+			dirty[i] = 0xa5
+		}
+		sw := bits.NewFixedSliceWriterFromSlice(dirty)
 		if err := b.EncodeSW(sw); err != nil {
 			outcome = "err"
 			return
